@@ -3,7 +3,7 @@ PROP_MODULES = {
     "C02": ["contracts.c02_select"],
     "C03": ["contracts.c03_neurons"],
     "C07": ["contracts.c07_traces"],
-    "C08": ["contracts.c09_split"],
+    "C08": ["contracts.c09_split", "contracts.c08_wiring"],
     "C09": ["contracts.c09_split", "contracts.c18_dastdp"],
     "C10": ["contracts.c10_updater"],
     "C18": ["contracts.c18_dastdp"],
